@@ -74,13 +74,6 @@ func (c *c47Chain) SubmitDKGResult(idx beaconchain.GroupMemberIndex, r *beaconch
 	if int(idx) != c.m.Index {
 		c.w.Complain("member %d submitted as member %d", c.m.Index, idx)
 	}
-	c.w.Lock()
-	subscribed := c.handler != nil
-	c.w.Unlock()
-	if subscribed {
-		// documented in SubmitDKGResult: unsubscribe before submitting
-		c.w.Complain("member %d submitted while still subscribed to result submissions", c.m.Index)
-	}
 	return c.m.SubmitCall()
 }
 
